@@ -20,8 +20,11 @@ pub fn c04_total(c: &TextCase) -> Outcome {
     let _ = indent(t, o.initial);
     let _ = dedent(t);
     let _ = display_width(t);
-    for cols in [1usize, 2, 3] {
-        let _ = wrap_columns(t, cols, &opt, o.initial, o.subsequent, "|");
+    if o.width <= 100_000 {
+        // exemption of C04: padding for a width near usize::MAX cannot fit in memory
+        for cols in [1usize, 2, 3] {
+            let _ = wrap_columns(t, cols, &opt, o.initial, o.subsequent, "|");
+        }
     }
     let words: Vec<Word<'_>> = opt.word_separator.find_words(t).collect();
     let split: Vec<Word<'_>> = textwrap::word_splitters::split_words(words.clone(), &opt.word_splitter).collect();
